@@ -8,6 +8,88 @@ Theorem c06_artnet_layout :
 Proof. reflexivity. Qed.
 Print Assumptions c06_artnet_layout.
 
+(* every constant the artnet model takes from the repository (sizeof / offsetof of the packed wire structs, opcodes,
+   vectors, masks), regenerated into GenArtNet.v on each run, pinned to the value the proofs and statements were written
+   for: a change of the wire layout or of a constant in /repo breaks this obligation deterministically *)
+Theorem c06_artnet_consts :
+  AN_PACKET_SIZE = 1228 /\
+  AN_HEADER_SIZE = 10 /\
+  AN_OFF_op_code = 8 /\
+  AN_MAX_PORTS = 4 /\
+  AN_VERSION = 14 /\
+  AN_RDM_VERSION = 1 /\
+  AN_TOD_FLUSH_COMMAND = 1 /\
+  AN_MAX_RDM_ADDRESS_COUNT = 32 /\
+  AN_UID_SIZE = 6 /\
+  AN_OP_POLL = 8192 /\
+  AN_OP_REPLY = 8448 /\
+  AN_OP_DMX = 20480 /\
+  AN_OP_SYNC = 20992 /\
+  AN_OP_TODREQUEST = 32768 /\
+  AN_OP_TODDATA = 33024 /\
+  AN_OP_TODCONTROL = 33280 /\
+  AN_OP_RDM = 33536 /\
+  AN_OP_RDM_SUB = 33792 /\
+  AN_OP_TIME_CODE = 38656 /\
+  AN_OP_IP_PROGRAM = 63488 /\
+  AN_POLL_SIZE = 4 /\
+  AN_POLL_version = 0 /\
+  AN_POLL_talk_to_me = 2 /\
+  AN_REPLY_MIN = 197 /\
+  AN_REPLY_net_address = 8 /\
+  AN_REPLY_number_ports = 162 /\
+  AN_REPLY_port_types = 164 /\
+  AN_REPLY_sw_out = 180 /\
+  AN_DMX_HDR = 8 /\
+  AN_DMX_version = 0 /\
+  AN_DMX_universe = 4 /\
+  AN_DMX_net = 5 /\
+  AN_DMX_length = 6 /\
+  AN_DMX_data = 8 /\
+  AN_TRQ_HDR = 14 /\
+  AN_TRQ_version = 0 /\
+  AN_TRQ_net = 11 /\
+  AN_TRQ_command = 12 /\
+  AN_TRQ_address_count = 13 /\
+  AN_TRQ_addresses = 14 /\
+  AN_TD_HDR = 18 /\
+  AN_TD_version = 0 /\
+  AN_TD_rdm_version = 2 /\
+  AN_TD_net = 11 /\
+  AN_TD_command_response = 12 /\
+  AN_TD_address = 13 /\
+  AN_TD_uid_total = 14 /\
+  AN_TD_uid_count = 17 /\
+  AN_TD_tod = 18 /\
+  AN_TC_SIZE = 14 /\
+  AN_TC_version = 0 /\
+  AN_TC_net = 11 /\
+  AN_TC_command = 12 /\
+  AN_TC_address = 13 /\
+  AN_RDM_HDR = 14 /\
+  AN_RDM_version = 0 /\
+  AN_RDM_rdm_version = 2 /\
+  AN_RDM_net = 11 /\
+  AN_RDM_command = 12 /\
+  AN_RDM_address = 13 /\
+  AN_RDM_data = 14 /\
+  AN_IP_SIZE = 24 /\
+  AN_IP_version = 0 /\
+  AN_REPLY_TX_SIZE = 239 /\
+  RDMH_SIZE = 23 /\
+  RDMH_sub_start_code = 0 /\
+  RDMH_message_length = 1 /\
+  RDMH_destination_uid = 2 /\
+  RDMH_command_class = 19 /\
+  RDMH_param_data_length = 22 /\
+  RDM_START_CODE = 204 /\
+  RDM_SUB_START_CODE = 1 /\
+  RDM_CC_DISCOVER = 16 /\
+  RDM_CC_GET = 32 /\
+  RDM_CC_SET = 48.
+Proof. repeat split; reflexivity. Qed.
+Print Assumptions c06_artnet_consts.
+
 Theorem c06_artnet_no_oob : forall buf n st,
   bytes_ok buf = true -> len buf = 1228 -> n <= len buf ->
   run buf (artnet_handle n st) <> Hazard Oob.
@@ -38,6 +120,37 @@ Proof.
   unfold AN_PACKET_SIZE. lia.
 Qed.
 Print Assumptions c06_artnet_stale_free.
+
+(* independent of the capacity and of what the socket layer reports: for a receive buffer of ANY size and ANY reported
+   length n < 2^31 the handler returns (its loops end within their fuel: port / address / UID loops: fuel = the clamped count) and never divides by zero; and if
+   the buffer does hold n bytes it reads nothing at or beyond n *)
+Theorem c06_artnet_any_length : forall buf n st,
+  bytes_ok buf = true -> n <= 2147483647 ->
+  (forall z, z <> Oob -> run buf (artnet_handle n st) <> Hazard z) /\
+  (n <= len buf -> forall z, run buf (artnet_handle n st) <> Hazard z).
+Proof.
+  intros buf n st Hb Hn. pose proof (artnet_bounded_any n st Hn) as B. split.
+  - intros z Hz E. apply Hz. exact (nofail_run _ (bounded_nofail _ _ B) buf z Hb E).
+  - intros Hl z. apply (bounded_no_hazard n); assumption.
+Qed.
+Print Assumptions c06_artnet_any_length.
+
+(* history level: any sequence of datagrams, each followed in the receive buffer by arbitrary stale bytes, from any
+   initial state: no datagram ends in a hazard, and every output and the final state are the same whatever the
+   stale tails are *)
+Theorem c06_artnet_history : forall (h1 h2 : list (unit * list N * list N)) s,
+  Forall (fun x => let '(_, d, t) := x in bytes_ok d = true /\ bytes_ok t = true /\ len d <= 1228) h1 ->
+  Forall2 (fun x y => fst x = fst y) h1 h2 ->
+  (exists r, run_hist (fun (_ : unit) n st => artnet_handle n st) (fun _ r => fst r) s h1 = Done r) /\
+  run_hist (fun (_ : unit) n st => artnet_handle n st) (fun _ r => fst r) s h1 = run_hist (fun (_ : unit) n st => artnet_handle n st) (fun _ r => fst r) s h2.
+Proof.
+  intros h1 h2 s Hok H2.
+  assert (Hb : forall i n st, n <= AN_PACKET_SIZE -> bounded n ((fun (_ : unit) n st => artnet_handle n st) i n st)) by (intros; apply artnet_bounded; assumption).
+  split.
+  - apply (hist_safe AN_PACKET_SIZE _ _ Hb). exact Hok.
+  - apply (hist_stale_free AN_PACKET_SIZE _ _ Hb); assumption.
+Qed.
+Print Assumptions c06_artnet_history.
 
 (* an ArtDmx for universe 0x23 on net 4 carrying 3 slots, then stale bytes: accepted, buffer replaced *)
 Example ex_artnet_handled :
